@@ -124,6 +124,7 @@ Lemma inv_receive : forall now idle0 ps c, inv c -> inv (receive now idle0 ps c)
 Proof.
   intros now idle0 ps c I. unfold receive.
   destruct (is_end (c_state c)) eqn:E; auto.
+  destruct (c_close_pending c); auto.
   assert (NT : c_state c <> TERMINATED) by (intro H; rewrite H in E; discriminate).
   apply inv_recv_pkts.
   - destruct (is_none (c_close_at c)); auto. apply inv_set_close_at; auto.
@@ -337,7 +338,9 @@ Proof.
     + inversion S; subst. simpl. unfold receive.
       destruct (is_end (c_state c)) eqn:E.
       * exists []. rewrite app_nil_r. split; auto. right; split; auto. left; split; auto; constructor.
-      * set (c0 := if is_none (c_close_at c) then set_close_at (Some (now + idle0)) c else c).
+      * destruct (c_close_pending c) eqn:CP.
+        { exists []. rewrite app_nil_r. split; auto. right; split; auto. left; split; auto; constructor. }
+        set (c0 := if is_none (c_close_at c) then set_close_at (Some (now + idle0)) c else c).
         assert (E0 : c_events c0 = c_events c) by (unfold c0; destruct (is_none (c_close_at c)); auto; dconn c; reflexivity).
         assert (S0 : c_state c0 = c_state c) by (unfold c0; destruct (is_none (c_close_at c)); auto; dconn c; reflexivity).
         assert (I0 : inv c0).
@@ -553,7 +556,10 @@ Lemma receive_draining : forall now idle0 ps c,
   c_state (receive now idle0 ps c) = DRAINING /\
   exists nev pto3 err idle, In (PProc nev (Some pto3) err idle) ps /\ c_close_at (receive now idle0 ps c) = Some (now + pto3).
 Proof.
-  intros now idle0 ps c E. unfold receive. rewrite E. intros CS.
+  intros now idle0 ps c E. unfold receive. rewrite E.
+  destruct (c_close_pending c).
+  { intros CS. exfalso. destruct CS as [CS|CS]; rewrite CS in E; discriminate. }
+  intros CS.
   apply recv_pkts_draining; auto.
   destruct (is_none (c_close_at c)); auto.
 Qed.
@@ -564,7 +570,7 @@ Lemma receive_rearms_idle : forall now idle0 nev idle c,
   c_close_at (receive now idle0 [PProc nev None false idle] c) = Some (now + idle) /\
   is_end (c_state (receive now idle0 [PProc nev None false idle] c)) = false.
 Proof.
-  intros now idle0 nev idle c E P. unfold receive. rewrite E.
+  intros now idle0 nev idle c E P. unfold receive. rewrite E, P.
   dconn c. simpl in *. subst cp.
   unfold proc_pkt, srv_init; simpl.
   destruct (is_none ca); simpl;
@@ -709,8 +715,7 @@ Proof.
   - unfold connect in S. destruct (c_client c && negb (c_connect_called c)); inversion S; subst;
     repeat split; try discriminate; try (left; auto).
     all: try (left; dconn c; simpl in *; auto).
-  - inversion S; subst. repeat split; try discriminate. left. unfold receive. rewrite E.
-    apply pending_recv_pkts. destruct (is_none (c_close_at c)); auto.
+  - inversion S; subst. repeat split; try discriminate. left. unfold receive. rewrite E, P. exact P.
   - inversion S; subst. repeat split; try discriminate. left.
     dconn c; unfold do_close; simpl in *. destruct (is_none ce && negb (is_end st)); auto.
   - unfold send in S. destruct (negb (c_has_path c)).
